@@ -87,9 +87,8 @@ func (h *hist) checkSubject(repo, sj string) {
 			}
 			for i, hd := range hdrs {
 				got := hd.Get("OCI-Filters-Applied")
-				// demanded whenever there is something to filter; an empty answer for a subject without any referrer is
-				// the same with and without the filter, so the registry may answer it without announcing one
-				if f != "" && len(want) > 0 && got != "artifactType" {
+				// every filtered answer announces the filter, also the empty one for a subject nobody refers to
+				if f != "" && got != "artifactType" {
 					h.viol("referrers:filter-header", fmt.Sprintf("filtered request (artifactType=%s), response %d of %d (repetition %d) lacks OCI-Filters-Applied (got %q)", f, i+1, pages, rep, got))
 					return
 				}
